@@ -217,7 +217,7 @@ def _copy_worker(item):
             res['outcomes'][oc] = res['outcomes'].get(oc, 0) + 1
             res['counters']['nontrivial'] += 1
             if why is not None and len(res['violations']) < 10:
-                kinds = sorted(set(assign[o[3]] for cl in calls for o in cl if o[0] == 'C'))
+                kinds = sorted(set(assign[o[3]] for cl in calls for o in cl if o[0] in ('C', 'C*')))
                 res['violations'].append({'case': {'copy_seq': list(seq), 'assign': list(assign), 'raw_ts': raw_ts},
                                           'expected': 'copy through TdmsGroup/TdmsChannel objects == original', 'observed': why[1],
                                           'signature': {'kind': 'copy-' + why[0], 'data_kinds': kinds, 'detail': None}})
@@ -236,12 +236,12 @@ def _worker(item):
             oc, why = check_program(calls, assign, split, version, dest)
             res['counters']['programs'] += 1
             res['outcomes'][oc] = res['outcomes'].get(oc, 0) + 1
-            if oc in ('equal', 'deviates') and any(o[0] == 'C' for c in calls for o in c):
+            if oc in ('equal', 'deviates') and any(o[0] in ('C', 'C*') for c in calls for o in c):
                 res['counters']['nontrivial'] += 1
             if split:
                 res['counters']['multi_session'] += 1
             if why is not None and len(res['violations']) < 25:
-                kinds = sorted(set(assign[o[3]] for c in calls for o in c if o[0] == 'C'))
+                kinds = sorted(set(assign[o[3]] for c in calls for o in c if o[0] in ('C', 'C*')))
                 res['violations'].append({
                     'case': {'seq': list(seq), 'assign': list(assign), 'split': split, 'version': version, 'dest': dest},
                     'expected': 'read back == written', 'observed': why[1],
